@@ -101,6 +101,26 @@ impl SeparableNonlinearModel for Flaky {
     }
 }
 
+/// a model in the style the trait documentation recommends: the function matrix is computed and cached inside `set_params`
+/// (and is absent before the first call), so a problem builder that never applies the initial parameters shows
+struct Caching { inner: varpro::model::SeparableModel<f64>, phi: Option<DMatrix<f64>>, updates: usize }
+impl SeparableNonlinearModel for Caching {
+    type ScalarType = f64;
+    type Error = ModelError;
+    fn parameter_count(&self) -> usize { self.inner.parameter_count() }
+    fn base_function_count(&self) -> usize { self.inner.base_function_count() }
+    fn output_len(&self) -> usize { self.inner.output_len() }
+    fn set_params(&mut self, parameters: DVector<f64>) -> Result<(), Self::Error> {
+        self.inner.set_params(parameters)?;
+        self.phi = Some(self.inner.eval()?);
+        self.updates += 1;
+        Ok(())
+    }
+    fn params(&self) -> DVector<f64> { self.inner.params() }
+    fn eval(&self) -> Result<DMatrix<f64>, Self::Error> { self.phi.clone().ok_or(ModelError::DerivativeIndexOutOfBounds { index: usize::MAX }) }
+    fn eval_partial_deriv(&self, derivative_index: usize) -> Result<DMatrix<f64>, Self::Error> { self.inner.eval_partial_deriv(derivative_index) }
+}
+
 fn algebra_sweep() {
     let mut f = Findings::new();
     for &(n, m, p) in [(8usize, 2usize, 2usize), (9, 3, 2)].iter() {
@@ -166,6 +186,15 @@ fn algebra_sweep() {
                 None => f.report("C03 C09", "jacobian() == None for zero observations", String::new()),
             }
         }
+    }
+    // C18: a built problem has applied the model's initial parameters once and already exposes residuals and coefficients
+    {
+        let (n, m, p) = (8usize, 2usize, 2usize);
+        let pr = LevMarProblemBuilder::new(Caching { inner: model(n, m, p), phi: None, updates: 0 }).observations(data(n)).build().unwrap();
+        if pr.model().updates == 0 || pr.residuals().is_none() || pr.linear_coefficients().is_none() {
+            f.report("C18 C02", "build() did not apply the model's initial parameters: the built problem exposes no residuals / coefficients", format!("for a model that computes its function matrix inside set_params (set_params calls during build: {})", pr.model().updates));
+        }
+        if pr.params() != pr.model().params() || pr.params().as_slice() != [1.5, 3.5] { f.report("C18", "the built problem does not report the model's initial parameters", String::new()); }
     }
     // C09: a derivative that fails at an index other than the last must make jacobian() None
     for fail_at in 0..2usize {
